@@ -25,7 +25,8 @@ MODEL_TARGETS = ["model/XorOracle.vo", "model/XorCases.vo"]
 HARNESS_BINS = ["xor18", "exec"]
 RULE = ("a case is one (instruction F, context) pair run caught and uncaught on the real execute_air as single-peer histories; "
         "distinct = distinct (F, context) pairs in which a catch branch ran or an uncatchable error met an xor (c18_nontrivial); "
-        "quick: every F kind at top level + a seeded sample of F x context; thorough: every F kind x every context")
+        "quick: 24 fixed (F, context) pairs + every F kind at top level + a seeded sample of F x context, lock-step on the fixed pairs and "
+        "every fifth case; thorough: every F kind x every context, lock-step on every second case")
 PARTIAL = [
     "C18_faithful holds for swallow-free left branches (no par, no fold over a stream inside) started with error setting enabled; "
     "the unrestricted statements are REFUTED (C18_faithful_full_refuted, C18_faithful_any_entry_full_refuted): after a par branch or a "
@@ -235,11 +236,28 @@ def combos():
     return out
 
 
+# pairs that are always run and always go through the lock-step: instructions that READ :error: / %last_error% where an
+# earlier failure was handled (the descriptors must have been cleared / re-enabled), the documented deviation, one of
+# each outcome class
+FIXED_PAIRS = [
+    ("fail_error_none", "after_caught"), ("fail_error_none", "after_caught_svc"), ("fail_error_none", "after_caught_match"),
+    ("fail_error_none", "fold2"), ("fail_error_none", "xor_right"), ("fail_last_error_none", "after_caught"),
+    ("fail_last_error_none", "after_caught_match"), ("fail_last_error_none", "par_right_ok"), ("lens_on_error", "after_caught"),
+    ("fail_error_rethrow", "after_caught"), ("fail_error_rethrow_svc", "fold2"), ("match_lit", "after_caught_svc"),
+    ("match_lit", "stale_after_par"), ("svc_err", "stale_par_sibling"), ("fail_lit", "stale_par_swallowing_fold"),
+    ("fail_error_none", "stale_after_par"), ("svc_err", "par_left_ok"), ("svc_err", "fold2"), ("fail_scalar", "new_stream"),
+    ("unc_shadow", "xor_right"), ("unc_iter_shadow", "after_caught"), ("wait_remote", "after_caught"), ("wait_join_call", "seq_after"),
+    ("ok_call", "xor_right"),
+]
+
+
 def gen_cases(rng, tier, escalate=False):
     allc = combos()
     if tier == "thorough" or escalate:
         return [make_case(f, c) for f, c in allc]
-    top = [make_case(f, CONTEXTS[0]) for f in F_KINDS]
+    fk = {f[0]: f for f in F_KINDS}
+    ck = {c[0]: c for c in CONTEXTS}
+    top = [dict(make_case(fk[a], ck[b]), lockstep=True) for a, b in FIXED_PAIRS] + [make_case(f, CONTEXTS[0]) for f in F_KINDS]
     # every context at least with a few catchable kinds, then a seeded sample of the rest
     rest = [(f, c) for f, c in allc if c[0] != "top"]
     chosen = []
@@ -248,7 +266,7 @@ def gen_cases(rng, tier, escalate=False):
         for f in rng.sample(pool, 5):
             chosen.append((f, ck))
     extra = rng.sample(rest, 60)
-    seen, cases = set(), list(top)
+    seen, cases = set(FIXED_PAIRS), list(top)
     for f, c in chosen + extra:
         if (f[0], c[0]) in seen:
             continue
@@ -313,12 +331,12 @@ def evaluate(cases, result, tier):
                 "what": ("the catch branch saw the object of an EARLIER swallowed failure (documented deviation)" if known else
                          "c18_oracle is false: the catch branch did not run / ran when it must not / saw another code or message than the uncaught twin reports")})
     # ---- lock-step of the executor model on the same scripts --------------------------------------
-    # quick tier: every fifth case (all of them in the thorough tier and in replays)
+    # quick tier: the fixed pairs + every fifth case; thorough: every second case; replays: all
     ecases, eowner = [], []
     for ci, c in enumerate(cases):
         if c.get("cur_script"):
             continue
-        if tier != "thorough" and len(cases) > 30 and ci % 5 != 0:
+        if len(cases) > 30 and ci % (2 if tier == "thorough" else 5) != 0 and not c.get("lockstep"):
             continue
         for which in ("caught", "uncaught"):
             ecases.append(exec_case(c, which))
